@@ -40,6 +40,15 @@ def dyn_circuit(rng, max_nodes=6, lossy=0.0, sources=('dc_voltage_source', 'dc_c
                 c['args']['I'] = 0.0
         ok, _ = dynamics.non_degenerate(cd)
         if ok:
+            if rng.random() < 0.15:
+                # a resistor bridged out by its own terminals (both on one node): carries nothing, changes nothing
+                free = [i for i in DYN_IDS if i not in {c['id'] for c in cd['components']}]
+                if free:
+                    n = rng.choice(circdesc.nodes(cd))
+                    cd['components'].insert(rng.randrange(len(cd['components']) + 1),
+                                            {'ctor': 'resistor', 'id': rng.choice(free), 'nodes': [n, n], 'args': {'R': G.value(rng, 0, 3)}})
+                    if not dynamics.non_degenerate(cd)[0]:
+                        continue
             return cd
     return None
 
